@@ -40,9 +40,12 @@ structure InvS (j : Job) (cl : Cluster) (cm : Comps) (x : SysX) : Prop where
   stage_phase : x.sys.phase ≠ .assigning → (x.sch.stage = .off ∨ x.sch.stage = .done)
   no_schErr : x.sch.schErr = none
 
-/-- FIFO delivery: `recv` takes a prefix of the pending events -/
+/-- Per-producer FIFO delivery: of every task's pending output notices a received batch takes a prefix, in their order
+(what one worker's channel guarantees). Notices of DIFFERENT tasks, transfer notices and payloads may overtake each other
+freely. The global discipline "a batch is a prefix of all pending events" is the special case `fifoStep_of_prefix`. -/
 def fifoStep (x : SysX) : StepX → Prop
-  | .base (.recv evs) => evs = x.sys.env.pending.take evs.length
+  | .base (.recv evs) => ∀ pend, takeEvents x.sys.env.pending evs = some pend →
+      ∀ t, evs.filterMap (noticeOf t) ++ pend.filterMap (noticeOf t) = x.sys.env.pending.filterMap (noticeOf t)
   | _ => True
 
 inductive ReachableFifo (f : Sem) (j : Job) (cl : Cluster) (cm : Comps) : SysX → Prop
